@@ -1502,19 +1502,18 @@ Definition dag_inv (st : rstate) : Prop := SInv g [] [] st /\ Cov g st /\ Acc g 
 Lemma Cov_mono : forall st st', Cov g st -> (forall y, skipped st y -> skipped st' y) -> Cov g st'.
 Proof. intros st st' H Hm x Hx. destruct (H x Hx); [now left|right; auto]. Qed.
 
-(* calculateNextTasks: the invariants hold again, the ready values join the in-flight handles [I] *)
-Lemma calc_body_dag : forall b I st ready st4,
+(* resolveCompletedTasks + updateValues + updateDependencies: the invariants hold again, the frame [I]
+   of in-flight handles is untouched, the tasks that were not collected stay pending *)
+Lemma resolve_phases_dag : forall b I st st',
   SInv g [] [] st -> Cov g st -> Acc g I st ->
   NoDup (map fst b) -> incl (map fst b) (rs_pending st) ->
-  calc_body g b st = Ok (ready, st4) ->
-  SInv g [] [] st4 /\ Cov g st4 /\ Acc g (map snd ready ++ I) st4 /\
-  NoDup (map fst ready) /\ incl (map fst ready) (chan_keys g) /\
-  (forall y, In y (map fst ready) -> In y (rs_pending st4)) /\
-  (forall y, In y (rs_pending st) -> ~ In y (map fst b) -> In y (rs_pending st4)).
+  resolve_phases g b st = Ok st' ->
+  SInv g [] [] st' /\ Cov g st' /\ Acc g I st' /\
+  (forall y, In y (rs_pending st) -> ~ In y (map fst b) -> In y (rs_pending st')).
 Proof.
-  intros b I st ready st4 HI Hcov HA HndB HinB H. unfold calc_body in H.
+  intros b I st st' HI Hcov HA HndB HinB H. unfold resolve_phases in H.
   set (B := map fst b) in *.
-  bind_ok H r1 H1. destruct r1 as [l st1]. bind_ok H st2 H2. bind_ok H st3 H3. rename H into H4.
+  bind_ok H r1 H1. destruct r1 as [l st1]. bind_ok H st2 H2. bind_ok H st3 H3. inversion H; subst st'; clear H.
   (* phase 1 *)
   pose proof (SInv_weaken g B st HI HinB) as HIB.
   destruct (phase1_inv g Hdag _ _ _ _ _ _ HIB (incl_refl _) H1) as (HI1 & Hm1 & Hl1).
@@ -1532,18 +1531,10 @@ Proof.
   destruct (phase3_acc g _ _ _ _ HA2 H3) as (HA3 & _ & _).
   (* the tasks are resolved *)
   pose proof (mark_resolved_inv g _ _ _ HI3 HndB) as HI3'.
-  assert (HA3' : Acc g I (mark_resolved B st3)) by exact HA3.
-  assert (Hcov3 : Cov g (mark_resolved B st3)).
-  { eapply Cov_mono; [exact Hcov|]. intros y Hy. change (skipped st3 y). apply Hs3, Hs2, Hm1, Hy. }
-  (* phase 4 *)
-  destruct (get_ready_inv g Hdag _ _ _ _ HI3' Hcov3 (incl_refl _) H4) as (HI4 & Hs4 & Hp4 & Hf4).
-  pose proof (get_ready_acc g Hnd Hend _ _ _ _ _ HA3' (incl_refl _) H4) as HA4.
-  destruct (get_ready_keys g _ _ _ _ (chan_keys_nodup g Hnd Hend) H4) as (Hrn & Hri).
-  split; [exact HI4|]. split; [|split; [exact HA4|split; [exact Hrn|split; [exact Hri|split; [exact Hf4|]]]]].
-  - eapply Cov_mono; [exact Hcov3|]. intros y Hy. now apply Hs4.
-  - (* the tasks that are not collected stay in flight: the same phases seen with every pending task as a
-       potential reporter keep them pending *)
-    intros y Hy Hny. apply Hp4. change (In y (remove_keys B (rs_pending st3))).
+  split; [exact HI3'|]. split; [|split; [exact HA3|]].
+  - eapply Cov_mono; [exact Hcov|]. intros y Hy. change (skipped st3 y). apply Hs3, Hs2, Hm1, Hy.
+  - (* the same phases seen with every pending task as a potential reporter keep them pending *)
+    intros y Hy Hny. change (In y (remove_keys B (rs_pending st3))).
     pose proof (SInv_weaken g (rs_pending st) st HI (incl_refl _)) as HIP.
     destruct (phase1_inv g Hdag _ _ _ _ _ _ HIP HinB H1) as (HP1 & _ & HlP).
     destruct (phase2_inv g Hdag _ _ _ _ _ HP1 HlP H2) as (W'' & HP2 & _).
@@ -1551,6 +1542,26 @@ Proof.
     pose proof (si_B _ _ _ _ HP3 y Hy) as Hy3.
     clear -Hy3 Hny. revert Hy3. generalize (rs_pending st3). induction B as [|k B IH]; simpl; intros pl Hy3; [exact Hy3|].
     apply IH; [intros Hin; apply Hny; now right|]. apply remove_one_in_other; [exact Hy3|]. intros ->. apply Hny. now left.
+Qed.
+
+(* calculateNextTasks: ... and the ready values join the in-flight handles *)
+Lemma calc_body_dag : forall b I st ready st4,
+  SInv g [] [] st -> Cov g st -> Acc g I st ->
+  NoDup (map fst b) -> incl (map fst b) (rs_pending st) ->
+  calc_body g b st = Ok (ready, st4) ->
+  SInv g [] [] st4 /\ Cov g st4 /\ Acc g (map snd ready ++ I) st4 /\
+  NoDup (map fst ready) /\ incl (map fst ready) (chan_keys g) /\
+  (forall y, In y (map fst ready) -> In y (rs_pending st4)) /\
+  (forall y, In y (rs_pending st) -> ~ In y (map fst b) -> In y (rs_pending st4)).
+Proof.
+  intros b I st ready st4 HI Hcov HA HndB HinB H. unfold calc_body in H. bind_ok H st3 H3. rename H into H4.
+  destruct (resolve_phases_dag _ _ _ _ HI Hcov HA HndB HinB H3) as (HI3 & Hcov3 & HA3 & Hkeep).
+  destruct (get_ready_inv g Hdag _ _ _ _ HI3 Hcov3 (incl_refl _) H4) as (HI4 & Hs4 & Hp4 & Hf4).
+  pose proof (get_ready_acc g Hnd Hend _ _ _ _ _ HA3 (incl_refl _) H4) as HA4.
+  destruct (get_ready_keys g _ _ _ _ (chan_keys_nodup g Hnd Hend) H4) as (Hrn & Hri).
+  split; [exact HI4|]. split; [|split; [exact HA4|split; [exact Hrn|split; [exact Hri|split; [exact Hf4|]]]]].
+  - eapply Cov_mono; [exact Hcov3|]. intros y Hy. now apply Hs4.
+  - intros y Hy Hny. apply Hp4. now apply Hkeep.
 Qed.
 
 Lemma calc_next_dag : forall b st ready st4,
@@ -1836,13 +1847,13 @@ Proof.
     + intros y Hy. rewrite Ho by tauto. apply Hoth1. intros ->. apply Hy. now left.
 Qed.
 
-Lemma calc_body_pregel : forall b I st ready st4,
+Lemma resolve_phases_pregel : forall b I st st',
   all_empty st -> Acc g I st -> NoDup (map fst b) ->
-  calc_body g b st = Ok (ready, st4) ->
-  all_empty st4 /\ Acc g (map snd ready ++ I) st4 /\ NoDup (map fst ready).
+  resolve_phases g b st = Ok st' ->
+  Acc g I st' /\ (forall y, ~ In y (chan_keys g) -> forall p, In p (all_keys g) -> ch_vals (rs_chans st' y) p = None).
 Proof.
-  intros b I st ready st4 Hemp HA HndB H. unfold calc_body in H.
-  bind_ok H r1 H1. destruct r1 as [l st1]. bind_ok H st2 H2. bind_ok H st3 H3. rename H into H4.
+  intros b I st st' Hemp HA HndB H. unfold resolve_phases in H.
+  bind_ok H r1 H1. destruct r1 as [l st1]. bind_ok H st2 H2. bind_ok H st3 H3. inversion H; subst st'; clear H.
   destruct (phase1_acc g Hnd Hend _ _ _ _ _ HA H1) as (HA1 & Hel & Hnodes).
   pose proof (phase1_pregel _ _ _ _ H1) as Hc1.
   assert (Hin : forall e, In e l -> In (node_of e) (all_keys g)).
@@ -1853,14 +1864,24 @@ Proof.
   assert (HndN : NoDup (map node_of l)) by (rewrite Hnodes; exact HndB).
   pose proof (phase2_acc g Hnd Hend _ _ _ _ HA1 Hel HndN Hnone H2) as HA2.
   destruct (phase3_acc g _ _ _ _ HA2 H3) as (HA3 & _ & Hv3).
-  assert (HA3' : Acc g I (mark_resolved (map fst b) st3)) by exact HA3.
-  pose proof (get_ready_acc g Hnd Hend _ _ _ _ _ HA3' (incl_refl _) H4) as HA4.
+  split; [exact HA3|].
+  intros y Hy p Hp. change (rs_chans (mark_resolved (map fst b) st3) y) with (rs_chans st3 y).
+  rewrite Hv3. rewrite (phase2_out _ _ _ _ H2 Hy). rewrite Hc1. now apply Hemp.
+Qed.
+
+Lemma calc_body_pregel : forall b I st ready st4,
+  all_empty st -> Acc g I st -> NoDup (map fst b) ->
+  calc_body g b st = Ok (ready, st4) ->
+  all_empty st4 /\ Acc g (map snd ready ++ I) st4 /\ NoDup (map fst ready).
+Proof.
+  intros b I st ready st4 Hemp HA HndB H. unfold calc_body in H. bind_ok H st3 H3. rename H into H4.
+  destruct (resolve_phases_pregel _ _ _ _ Hemp HA HndB H3) as (HA3 & Hout3).
+  pose proof (get_ready_acc g Hnd Hend _ _ _ _ _ HA3 (incl_refl _) H4) as HA4.
   destruct (get_ready_keys g _ _ _ _ (chan_keys_nodup g Hnd Hend) H4) as (Hrn & Hri).
   destruct (get_ready_empty _ _ _ _ (chan_keys_nodup g Hnd Hend) H4) as (He4 & Ho4).
   split; [|split; [exact HA4|exact Hrn]].
   intros y p Hp. destruct (in_dec N.eq_dec y (chan_keys g)) as [Hy|Hy]; [now apply He4|].
-  rewrite (Ho4 y Hy). change (rs_chans (mark_resolved (map fst b) st3) y) with (rs_chans st3 y).
-  rewrite Hv3. rewrite (phase2_out _ _ _ _ H2 Hy). rewrite Hc1. now apply Hemp.
+  rewrite (Ho4 y Hy). now apply Hout3.
 Qed.
 
 Lemma calc_next_pregel : forall b st ready st4,
